@@ -275,13 +275,21 @@ def oracle(ck: Check, tier, deep):
         sel = int(rng.integers(0, 2))
         other = list(o)
         other[1 - sel] = (r, c)[1 - sel] / 2 + rng.uniform(-2.5, 2.5)
-        ck.count(("S.axes-frac", sel, order), suite="S.frac")
-        rep = dict(shape=[r, c], origin=list(o), other_origin=other, axes=sel, order=order)
+        crop_u = ["maintain_size", "valid_region", "maintain_data"][int(rng.integers(0, 3))]
+        ck.count(("S.axes-frac", sel, order, crop_u), suite="S.frac")
+        rep = dict(shape=[r, c], origin=list(o), other_origin=other, axes=sel, order=order, crop=crop_u)
         sig = dict(site="set_center", kind="fractional", clause="unselected-axis")
         try:
-            a = set_center(im, o, axes=sel, crop="maintain_size", order=order)
-            b = set_center(im, tuple(other), axes=sel, crop="maintain_size", order=order)
-            none = set_center(im, o, axes=(), crop="maintain_size", order=order)
+            a = set_center(im, o, axes=sel, crop=crop_u, order=order)
+            b = set_center(im, tuple(other), axes=sel, crop=crop_u, order=order)
+            onone = list(o)
+            onone[1 - sel] = None
+            cnone = set_center(im, tuple(onone), crop=crop_u, order=order)
+            if cnone.shape != a.shape or a.shape[1 - sel] != im.shape[1 - sel] or np.abs(cnone - a).max() > 1e-12:
+                ck.violation(sig, rep, f"crop={crop_u}: axes={sel} with origin {o} is not the same as leaving the other coordinate None "
+                                       f"(shapes {a.shape} / {cnone.shape}, input {im.shape}): the unselected axis was touched")
+                continue
+            none = set_center(im, o, axes=(), crop=crop_u, order=order)
             oarr = np.array([o[0], None], dtype=object)
             r1 = set_center(im, oarr, crop="maintain_data", order=order)
             r2 = set_center(im, oarr, crop="maintain_data", order=order)
@@ -317,6 +325,69 @@ def oracle(ck: Check, tier, deep):
             ck.violation(dict(sig, clause="odd"), rep, f"odd_size=True returned width {out.shape[1]}")
         if sq and out.shape[0] != out.shape[1]:
             ck.violation(dict(sig, clause="square"), rep, f"square=True returned shape {out.shape}")
+    # detector counts through abel.Transform: an integer image with a fractional origin is centred as its float64 copy (conserving
+    # intensity and moving the centroid as stated), not with results rounded back to integers
+    import abel
+    for _ in range(12 if not deep else 80):
+        r, c = (int(v) for v in rng.integers(9, 20, size=2))
+        yy, xx = np.mgrid[:r, :c]
+        by, bx = rng.uniform(3, r - 4), rng.uniform(3, c - 4)
+        dt = [np.int32, np.int64, np.uint16, np.uint8][int(rng.integers(0, 4))]
+        Xi = np.round(60 * np.exp(-((yy - by) ** 2 + (xx - bx) ** 2) / 6.0)).astype(dt)
+        o = (float(by + rng.uniform(-0.5, 0.5)), float(bx + rng.uniform(-0.5, 0.5)))
+        crop = ["maintain_size", "valid_region", "maintain_data"][int(rng.integers(0, 3))]
+        order = int(rng.integers(1, 4))
+        ck.count(("S.transform-int", np.dtype(dt).name, crop, order), suite="S.frac")
+        rep = dict(shape=[r, c], dtype=np.dtype(dt).name, origin=list(o), crop=crop, order=order, blob=[by, bx])
+        sig = dict(site="Transform", kind="fractional", clause="integer-image")
+        try:
+            kw = dict(method="two_point", origin=o, center_options=dict(crop=crop, order=order), transform_options=dict(basis_dir=None))
+            ti = quiet_call(abel.Transform, Xi, **kw)
+            tf = quiet_call(abel.Transform, Xi.astype(np.float64), **kw)
+            ref = set_center(Xi[:, :-1].astype(np.float64) if c % 2 == 0 else Xi.astype(np.float64), o, crop=crop, order=order)
+        except Exception as e:
+            ck.violation(dict(sig, clause="exception"), rep, f"{type(e).__name__}: {e}")
+            continue
+        if ti.IM.shape != tf.IM.shape or np.abs(ti.IM - tf.IM).max() > 1e-12 * 60 or np.abs(ti.transform - tf.transform).max() > 1e-9 * 60:
+            ck.violation(sig, rep, f"Transform of the {np.dtype(dt).name} image centres it differently from its float64 copy "
+                                   f"(max difference {np.abs(ti.IM - tf.IM).max() if ti.IM.shape == tf.IM.shape else 'shape'})")
+        elif ref.shape != tf.IM.shape or np.abs(ref - tf.IM).max() > 1e-12 * 60:
+            ck.violation(dict(sig, clause="transform-centres-with-set_center"), rep, "Transform(origin=…).IM is not set_center of the (odd-width) float image")
+    # … the same claims with every crop option, axes selection and origin method, on images with an off-centre blob
+    for _ in range(400 if not deep else 4000):
+        r, c = (int(v) for v in rng.integers(6, 18, size=2))
+        odd, sq = bool(rng.integers(0, 2)), bool(rng.integers(0, 2))
+        crop = ["maintain_size", "valid_region", "maintain_data"][int(rng.integers(0, 3))]
+        axes = [0, 1, (0, 1)][int(rng.integers(0, 3))]
+        yy, xx = np.mgrid[:r, :c]
+        by, bx = rng.uniform(1.5, r - 2.5), rng.uniform(1.5, c - 3.5)
+        im = np.exp(-((yy - by) ** 2 + (xx - bx) ** 2) / 2.0) + 1e-3
+        kind = int(rng.integers(0, 5))
+        # (explicit origins well inside what is left after the trimming of odd_size / square)
+        side = min(r, c) - 1
+        meth = ["image_center", "com", "convolution", (int(rng.integers(1, side - 1)), int(rng.integers(1, side - 1))),
+                (float(rng.uniform(1, side - 2)), float(rng.uniform(1, side - 2)))][kind]
+        ck.count(("S.flags-crop", crop, str(axes), kind, odd, sq), suite="S.flags")
+        sig = dict(site="center_image", odd_size=odd, square=sq, crop=crop)
+        rep = dict(shape=[r, c], odd_size=odd, square=sq, crop=crop, axes=axes, method=meth if isinstance(meth, str) else list(meth), blob=[by, bx])
+        try:
+            out = center_image(im, method=meth, odd_size=odd, square=sq, crop=crop, axes=axes)
+        except Exception as e:
+            ck.violation(dict(sig, clause="exception"), rep, f"{type(e).__name__}: {e}")
+            continue
+        if out.size == 0:
+            ck.violation(dict(sig, clause="empty"), rep, f"empty result {out.shape}")
+        elif odd and out.shape[1] % 2 != 1:
+            ck.violation(dict(sig, clause="odd"), rep, f"odd_size=True returned width {out.shape[1]} (crop={crop}, axes={axes})")
+        elif sq and out.shape[0] != out.shape[1]:
+            ck.violation(dict(sig, clause="square"), rep, f"square=True returned shape {out.shape} (crop={crop}, axes={axes})")
+
+
+def quiet_call(f, *a, **k):
+    import warnings
+    with warnings.catch_warnings():
+        warnings.simplefilter("ignore")
+        return f(*a, **k)
 
 
 def run(tier):
